@@ -90,6 +90,7 @@ type obsT struct {
 	Streams     int                 `json:"streams"`
 	Stable      bool                `json:"stable"`  // both registered each other and see each other at the end
 	Settled     bool                `json:"settled"` // the observation was taken at rest
+	Stuck       bool                `json:"stuck"`   // never at rest, and a pair that ought to be connected was not for the whole budget
 	ShutDown    map[string]bool     `json:"shutDown"`
 	UserReg     map[string]bool     `json:"userReg"` // the user's last word for the peer's SKI was Register
 	AutoOn      map[string]bool     `json:"autoOn"`  // auto accept is switched on at the end
@@ -699,6 +700,7 @@ func runScript(s scriptT) obsT {
 	// quiescence: no event for 1.5 s and no registered connection in the middle of its handshake (its 10 s / 60 s timers
 	// are armed then and the library will still act)
 	settled := false
+	wanted, unconnected := false, false
 	for round := 0; round < 8 && !settled && !l.flooded(); round++ {
 		quiet := settle(l, 1500*time.Millisecond, 15*time.Second)
 		busy := false
@@ -728,14 +730,18 @@ func runScript(s scriptT) obsT {
 		want := registered["A"] && registered["B"] && eth.visible["A"] && eth.visible["B"] && !shut["A"] && !shut["B"] &&
 			s.IDs["A"] != "wrong" && s.IDs["B"] != "wrong"
 		eth.mu.Unlock()
-		if want && !busy && round < 6 {
+		wanted, unconnected = want, false
+		if want {
 			for name, n := range eth.nodes {
 				c, ok := n.h.VerifRegistry()[skis[other[name]]]
 				if !ok {
-					busy = true
+					unconnected = true
 				} else if st, _ := c.ShipHandshakeState(); st != model.SmeStateComplete {
-					busy = true
+					unconnected = true
 				}
+			}
+			if unconnected && !busy && round < 6 {
+				busy = true
 			}
 		}
 		if !busy && quiet {
@@ -758,7 +764,10 @@ func runScript(s scriptT) obsT {
 		time.Sleep(300 * time.Millisecond)
 	}
 	l.add("", "Quiesced", vh.B(settled))
-	o := obsT{ID: s.ID, Script: s, Settled: settled, Hubs: map[string]hubObs{}, ShutDown: shut, Sent: map[string][]string{},
+	// a pair that ought to be connected and still is not after all those rounds (half a minute and more, the dial back-off
+	// scaled to 2 % or less) without ever falling silent - one side keeps dialling and is refused - is stuck: C05 judges it
+	stuck := !settled && wanted && unconnected && !l.flooded()
+	o := obsT{ID: s.ID, Script: s, Settled: settled, Stuck: stuck, Hubs: map[string]hubObs{}, ShutDown: shut, Sent: map[string][]string{},
 		UserReg: map[string]bool{"A": registered["A"], "B": registered["B"]}, AutoOn: map[string]bool{"A": autoOn["A"], "B": autoOn["B"]}}
 	// echo: whatever each application writes now must arrive at the other one
 	// (what both have received so far is noted before either writes: a payload can arrive faster than this loop turns)
